@@ -12,8 +12,14 @@ static V *cur_v;
 static int cur_flags;
 static sb_t cur_txt;
 
+static char fmt_desc[96];
 static void describe(sb_t *o)
 {
+	if (fmt_desc[0])
+	{
+		sb_printf(o, "fam=double-formats flags=%d %s", cur_flags, fmt_desc);
+		return;
+	}
 	static char docbuf[1 << 15];
 	sb_t doc;
 	sb_init_fixed(&doc, docbuf, sizeof docbuf);
@@ -512,11 +518,111 @@ static void fam_scale(void)
 		}
 }
 
+/* ---- family: custom double formats (global, per thread, per node) ----
+ * A custom format may round, so the tree's exact value is not required; what C02 still demands:
+ * valid RFC 8259 text, a number token whose value is that of the formatted text, formatting
+ * flags changing only whitespace, NOZERO not changing the value, correct length. */
+static double v_number_value(const V *v)
+{
+	if (v->k == V_DBL)
+		return v->d;
+	return v->neg ? -(double)v->mag : (double)v->mag;
+}
+static void fam_formats(void)
+{
+	cur_fam = "double-formats";
+	static const char *fmts[] = {"%.3f", "%.1f", "%.2e", "%.0f", "%g", "%.10g", "%f", "%e", "%.17g", "%.6G"};
+	static const double vals[] = {0.0, -0.0, 2.0, -7.0, 1.5, 1.05, 0.125, 3e10, 1e-7, 123456.789, 0.1, 100.0, 0.5, 2.5, 1e15, 1e16, -1e-5, 10.0, 1.10, 20.25, 1e21, 7e-10, 999.9996, 0.0004};
+	for (unsigned f = 0; f < sizeof fmts / sizeof fmts[0]; f++)
+		for (unsigned vi = 0; vi < sizeof vals / sizeof vals[0]; vi++)
+			for (int via = 0; via < 3; via++)
+				for (int ctx = 0; ctx < 2; ctx++)
+				{
+					snprintf(fmt_desc, sizeof fmt_desc, "format=%s value=%a via=%d ctx=%d", fmts[f], vals[vi], via, ctx);
+					cur_v = NULL;
+					if (!mc_case_begin())
+						continue;
+					char want[400];
+					snprintf(want, sizeof want, fmts[f], vals[vi]);
+					if (strlen(want) > 100)
+						continue;
+					double expect = strtod(want, NULL);
+					struct json_object *d = json_object_new_double(vals[vi]);
+					if (via == 0)
+						json_c_set_serialization_double_format(fmts[f], JSON_C_OPTION_GLOBAL);
+					else if (via == 1)
+						json_c_set_serialization_double_format(fmts[f], JSON_C_OPTION_THREAD);
+					else
+						json_object_set_serializer(d, json_object_double_to_json_string, (void *)fmts[f], NULL);
+					struct json_object *o = d;
+					if (ctx)
+					{
+						o = json_object_new_array();
+						json_object_array_add(o, d);
+					}
+					for (int flags = 0; flags < 64; flags++)
+					{
+						cur_flags = flags;
+						size_t len = 777;
+						MC_COUNT("calls", 1);
+						const char *t = json_object_to_json_string_length(o, flags, &len);
+						if (!t)
+						{
+							mc_violation("serialize-null", "serializer returned NULL");
+							continue;
+						}
+						if (len != strlen(t))
+							mc_violation("length-mismatch", "reported length %zu, strlen %zu", len, strlen(t));
+						sb_reset(&cur_txt);
+						sb_put(&cur_txt, t, strlen(t));
+						strip_colour(t, strlen(t), &texts[flags]);
+						struct rr_opts ro = {.strict_range = 0}; /* "%.0f" of 1e21 is a 22-digit integer token: valid JSON */
+						struct rr_result rr;
+						rr_parse((const unsigned char *)texts[flags].p, texts[flags].n, &ro, &rr);
+						if (rr.status != RR_OK)
+						{
+							mc_violation("invalid-json-emitted", "format %s: reference reader rejects %.100s", fmts[f], sb_str(&texts[flags]));
+							continue;
+						}
+						const V *num = ctx ? (rr.value->k == V_ARR && rr.value->n == 1 ? rr.value->items[0] : NULL) : rr.value;
+						if (!num || (num->k != V_DBL && num->k != V_INT))
+						{
+							mc_violation("text-denotes-other-value", "format %s: text %.100s is not %s", fmts[f], sb_str(&texts[flags]), ctx ? "an array of one number" : "a number");
+							continue;
+						}
+						double got = v_number_value(num);
+						if (num->k == V_INT && num->over)
+							got = expect; /* integer token beyond 64 bits: the reference reader saturates, nothing to compare */
+						if (!(got == expect))
+							mc_violation((flags & JSON_C_TO_STRING_NOZERO) ? "nozero-changes-value" : "text-denotes-other-value", "format %s: text %.100s denotes %.17g, the formatted value is %.17g (%s)",
+							             fmts[f], sb_str(&texts[flags]), got, expect, want);
+						int base = flags & (JSON_C_TO_STRING_NOZERO | JSON_C_TO_STRING_NOSLASHESCAPE);
+						if (flags != base)
+						{
+							strip_ws(texts[flags].p, texts[flags].n, &tmp);
+							if (strcmp(sb_str(&tmp), sb_str(&texts[base])))
+								mc_violation("format-flag-changes-token", "format %s: %.100s vs %.100s", fmts[f], sb_str(&tmp), sb_str(&texts[base]));
+						}
+						mc_outcome(mc_hash(texts[flags].p, texts[flags].n, 0));
+					}
+					json_object_put(o);
+					json_c_set_serialization_double_format(NULL, JSON_C_OPTION_GLOBAL);
+					json_c_set_serialization_double_format(NULL, JSON_C_OPTION_THREAD);
+					if (vf_live())
+						mc_violation("leak", "%ld blocks live after release and format reset", vf_live());
+					mc_nontrivial(mc_hash_str(fmt_desc));
+					mc_sample_current();
+				}
+	fmt_desc[0] = 0;
+}
+
 static void enumerate(void)
 {
 	const char *only = mc_opt("fam", "");
 	if (!*only || !strcmp(only, "scale"))
 		fam_scale();
+	if (!*only || !strcmp(only, "formats"))
+		fam_formats();
 	if (!*only || !strcmp(only, "ints"))
 		fam_ints();
 	if (!*only || !strcmp(only, "strings"))
@@ -531,6 +637,12 @@ static int replay(const char *desc)
 {
 	static unsigned char doc[1 << 14];
 	size_t n = 0;
+	if (strstr(desc, "fam=double-formats"))
+	{
+		mc_case_begin_all();
+		fam_formats();
+		return (int)mc_violations();
+	}
 	if (!mc_desc_hex(desc, "doc", doc, sizeof doc, &n))
 		return -1;
 	struct rr_opts ro = {0};
